@@ -9,24 +9,55 @@ def in_domain(script):
     return bool(script) and script[0].split()[0] in ("arr", "gen")
 
 
+def shrink_failures(chk, c_exe, m_exe):
+    """cut every concrete failing script down to the array set-up and the
+    operations after it up to the failing one (operations before the last
+    `arr`/`gen` cannot matter), keeping it only if the oracle still rejects"""
+    import re
+    for f in chk.oracle_failures[:5]:
+        m = re.match(r"op (\d+) ", f["what"])
+        if not m:
+            continue
+        k = int(m.group(1))
+        sc = f["script"]
+        start = max([i for i in range(k + 1) if sc[i].split()[0] in ("arr", "gen")] or [0])
+        cand = sc[start:k + 1]
+        c, _ = vlib.run_pair(c_exe, m_exe, [cand], jobs=1)
+        w = sort.oracle(chk.prop, cand, c[0])
+        if not w:
+            continue
+        best = (cand, w, c[0])
+        # drop operations between the set-up and the failing one while the oracle still rejects
+        i = 1
+        while i < len(best[0]) - 1 and len(best[0]) <= 40:
+            cand = best[0][:i] + best[0][i + 1:]
+            c, _ = vlib.run_pair(c_exe, m_exe, [cand], jobs=1)
+            w = sort.oracle(chk.prop, cand, c[0])
+            if w:
+                best = (cand, w, c[0])
+            else:
+                i += 1
+        f["script"], f["what"], f["impl_output"] = best
+
+
 def run(chk):
     c_exe, m_exe = vlib.prepare_area(chk, sort, leanchecker=True)
     if c_exe:
         vlib.run_scripts(chk, sort, c_exe, m_exe, sort.corpus(), sort.oracle)
         if chk.tier == "quick":
-            ex, narr = sort.exhaustive_scripts(maxlen=7, draw_len=2, draw_len_long=1, long_from=7)
+            ex, narr = sort.exhaustive_scripts(maxlen=7, draw_len=2)
             adv = sort.adversarial_scripts([300, 1500], [4000])
             rnd = sort.random_scripts(chk.rng, 400) + sort.random_medium_scripts(chk.rng, 40)
             scope = ("every array of length <= 7 over 3 key values x selectors {0,1,2,3,4,99} x element sizes "
                      "{1,2,4,8,3,16} (raw) + vector wrapper; random pivot: every draw list of length <= 2 "
-                     "(length 7: <= 1) over all indices, then 0")
+                     "over all indices, then 0")
         else:
-            ex, narr = sort.exhaustive_scripts(maxlen=7, draw_len=3, draw_len_long=2, long_from=7)
+            ex, narr = sort.exhaustive_scripts(maxlen=7, draw_len=3)
             adv = sort.adversarial_scripts([300, 1500, 5000], [4000, 20000])
             rnd = sort.random_scripts(chk.rng, 4000) + sort.random_medium_scripts(chk.rng, 400, 65, 2500)
             scope = ("every array of length <= 7 over 3 key values x selectors {0,1,2,3,4,99} x element sizes "
                      "{1,2,4,8,3,16} (raw) + vector wrapper; random pivot: every draw list of length <= 3 "
-                     "(length 7: <= 2) over all indices, then 0")
+                     "over all indices, then 0")
         chk.stats["states"] += narr
         chk.exhaustive = True
         chk.extra["scope"] = scope
@@ -37,6 +68,7 @@ def run(chk):
         for part in (ex, adv, rnd):
             chk.stats["transitions"] += sum(len(s) for s in part)
             vlib.run_scripts(chk, sort, c_exe, m_exe, part, sort.oracle, batch=4000)
+        shrink_failures(chk, c_exe, m_exe)
         if chk.mismatches and not chk.oracle_failures:
             m = chk.mismatches[0]
             small = vlib.minimise(sort, c_exe, m_exe, m["script"], in_domain)
